@@ -378,6 +378,15 @@ example : (run [.start, .accept (.int 7), .enqueue r0, .dequeue, .handleAsyncRes
     .respond r0, .prDelete r0, .prFinish r0] M.init).map (fun m => (m.st.done, m.answered, m.closerCloses)) =
     some (true, [r0], 1) := by decide
 
+/-- `Notify` whose params cannot be marshaled: Notify#1 succeeds (`notifyEnter`, `attempted`), nothing is
+written, the deferred Notify#0 still runs (`notifyExit` — its guard is only `owedNotif ≠ 0`, no write is
+required in between); afterwards the connection drains normally.  Without the exit it never would:
+`outNotif = 1` keeps the state non-idle (second example). -/
+example : (run [.start, .notifyEnter, .notifyExit, .close, .readerExit] M.init).map
+    (fun m => (m.st.done, m.st.outNotif, m.owedNotif)) = some (true, 0, 0) := by decide
+example : (run [.start, .notifyEnter, .close, .readerExit] M.init).map
+    (fun m => (m.st.done, m.st.outNotif, m.owedNotif)) = some (false, 1, 1) := by decide
+
 /-- duplicate request ID: the second request's ID is cleared and it is not recorded. -/
 example : (run [.start, .accept (.int 7), .accept (.int 7)] M.init).map (fun m => (m.reqs, m.st.byID, m.st.incoming)) =
     some ([(⟨1, .none⟩, Phase.result), (r0, Phase.accepted)], [(.int 7, r0)], 2) := by decide
